@@ -10,6 +10,9 @@
 
 #include <xenium/reclamation/hazard_eras.hpp>
 #include <xenium/reclamation/hazard_pointer.hpp>
+#ifdef XV_RECL
+  #include "reclaimers.h"
+#endif
 
 #include <new>
 #include <unordered_map>
@@ -19,6 +22,10 @@ namespace xr = xenium::reclamation;
 namespace xp = xenium::policy;
 
 namespace {
+
+// property the oracles of this build report for: C18 (slot accounting, hazard_pointer / hazard_eras matrix) or, when built
+// with -DXV_RECL=<n> for one reclaimer of the matrix, C15 (guard_ptr algebra: the same sequences, no slot limit applies)
+const char* g_prop = "C18";
 
 struct Registry { // only touched inside xrt::Quiet sections
   std::unordered_map<const void*, int> prot; // node -> number of model guards (over all holder threads) protecting it
@@ -203,7 +210,7 @@ struct Env {
       if (wrong_type)
         fail("wrong-exception", instr_str(in) + " threw the exception type of the other reclaimer");
       if (Dynamic)
-        fail("dynamic-strategy-threw", instr_str(in) + " threw although the dynamic strategy can always add slots");
+        fail("dynamic-strategy-threw", instr_str(in) + " threw although no slot limit applies (dynamic strategy / reclaimer without slots)");
       else if (others < K)
         fail("spurious-exhaustion",
              instr_str(in) + fmt(" threw although only %d other guard_ptr(s) of this thread protect something (K=%d): a slot leaked or is held by an empty guard", others, K));
@@ -600,7 +607,7 @@ struct Env {
       return;
     xrt::Quiet q;
     if (!reg().kind.empty())
-      out.fail("C18", reg().kind.c_str(), reg().msg);
+      out.fail(g_prop, reg().kind.c_str(), reg().msg);
   }
 
   // ---- bounded-exhaustive sequences on one thread ---------------------------------------------------------------------------
@@ -753,7 +760,7 @@ struct Env {
     counters().add("ops_with_K_other_guards", full);
     counters().add("ops_with_more_than_K_guards", overk);
     counters().add("exhaustive_sequences", seqs);
-    counters().max("exhaustive_alphabet", alpha.size());
+    counters().max("max_exhaustive_alphabet", alpha.size());
     out.history = fmt("exhaustive: alphabet %zu, length %d, slice %" PRIu64 "/%" PRIu64 " = sequences [%" PRIu64 ", %" PRIu64 ") from start states 0/K-1/K",
                       alpha.size(), len, slice, slices, first, first + count);
     out.hist_hash = mix64(first, count * 31 + (uint64_t)len);
@@ -762,7 +769,7 @@ struct Env {
       return;
     xrt::Quiet q;
     if (!reg().kind.empty())
-      out.fail("C18", reg().kind.c_str(), reg().msg);
+      out.fail(g_prop, reg().kind.c_str(), reg().msg);
   }
 };
 
@@ -809,12 +816,24 @@ void reg_k() {
 
 int main(int argc, char** argv) {
   xrt::quiet_begin();
+#ifdef XV_RECL
+  // guard_ptr algebra for one reclaimer of the matrix (C15): 4 guards, no exception is ever expected
+  g_prop = "C15";
+  using R = xv::recl<XV_RECL>::type;
+  using E = Env<R, 2, true, false>;
+  table().push_back({"run_alg", [](const ExecCtx& c, ExecOut& o) { E::run_random(c, o); }});
+  table().push_back({"exh2_alg", [](const ExecCtx& c, ExecOut& o) { E::run_exhaustive(c, o, 2, c.exec % EXH_SLICES, EXH_SLICES); }});
+  table().push_back({"exh3_alg", [](const ExecCtx& c, ExecOut& o) { E::run_exhaustive(c, o, 3, c.exec % EXH_SLICES, EXH_SLICES); }});
+  static std::string name = std::string("algebra.") + xv::recl<XV_RECL>::name;
+#else
   reg_k<1>();
   reg_k<2>();
   reg_k<3>();
   reg_k<5>();
+  static std::string name = "slots";
+#endif
   ScenarioDef def;
-  def.name = "slots";
+  def.name = name.c_str();
   for (auto& c : table())
     def.configs.push_back(c.name);
   def.run = [](const std::string& cfg, const ExecCtx& ctx, ExecOut& out) {
